@@ -8,8 +8,13 @@
     A genotype matrix is its per-taxon allele-count table [X] (n rows of m counts, what [gmat.tacount()] returns),
     its ploidy, and its labels.  Where the source divides by a float zero (numpy: inf/nan, no exception) the model
     answers [RNonfinite]; where it raises, [RErr].  Definitions only. *)
+From Coq Require Import Qround.
 From PV Require Import Lib.Common.
 Local Open Scope Q_scope.
+
+(** sums that keep the running total in lowest terms ([Qred q == q]: same value, far cheaper inside Coq) *)
+Definition sumQr (l : list Q) : Q := fold_right (fun x acc => Qred (x + acc)) 0 l.
+Definition dotQr (a b : list Q) : Q := sumQr (map2 Qmult a b).
 
 (** ** outcomes *)
 Inductive res (A : Type) := ROk (a : A) | RNonfinite | RErr (e : err).
@@ -60,7 +65,7 @@ Definition center (c : Q) (p : list Q) (X : list (list Z)) : list (list Q) := ma
 Definition qred_mat (G : list (list Q)) : list (list Q) := map (map Qred) G.
 
 (** generalised weighted: G = (Z * w) Z'  *)
-Definition gw_entry (w zi zj : list Q) : Q := dotQ (map2 Qmult zi w) zj.
+Definition gw_entry (w zi zj : list Q) : Q := dotQr (map2 Qmult zi w) zj.
 Definition gw_mat (w : list Q) (Zm : list (list Q)) : list (list Q) :=
   map (fun zi => map (fun zj => gw_entry w zi zj) Zm) Zm.
 Definition gw_from_gmat (ploidy : Z) (m : nat) (X : list (list Z)) (mkrwt afreq : oarg) : res (list (list Q)) :=
@@ -74,10 +79,10 @@ Definition gw_from_gmat (ploidy : Z) (m : nat) (X : list (list Z)) (mkrwt afreq 
   end.
 
 (** VanRaden: G = ZZ' / (ploidy * sum p(1-p)) *)
-Definition het_sum (p : list Q) : Q := dotQ p (map (fun pk => 1 - pk) p).
+Definition het_sum (p : list Q) : Q := dotQr p (map (fun pk => 1 - pk) p).
 Definition vr_mat (c : Q) (p : list Q) (Zm : list (list Q)) : list (list Q) :=
   let s := 1 / (c * het_sum p) in
-  map (fun zi => map (fun zj => s * dotQ zi zj) Zm) Zm.
+  map (fun zi => map (fun zj => s * dotQr zi zj) Zm) Zm.
 Definition vr_from_gmat (ploidy : Z) (m : nat) (X : list (list Z)) (p_anc : oarg) : res (list (list Q)) :=
   match resolve_freq ploidy m X p_anc with
   | RErr e => RErr e | RNonfinite => RNonfinite
@@ -89,7 +94,7 @@ Definition vr_from_gmat (ploidy : Z) (m : nat) (X : list (list Z)) (p_anc : oarg
 (** Yang: every column scaled by 1/sqrt(ploidy p (1-p)), G = ZZ'/m.  No square root in the model:
     G_ij = (1/m) sum_k Z_ik Z_jk / (ploidy p_k (1-p_k)) *)
 Definition yang_den (c : Q) (p : list Q) : list Q := map (fun pk => c * pk * (1 - pk)) p.
-Definition yang_entry (d zi zj : list Q) : Q := sumQ (map2 Qdiv (map2 Qmult zi zj) d).
+Definition yang_entry (d zi zj : list Q) : Q := sumQr (map2 Qdiv (map2 Qmult zi zj) d).
 Definition yang_mat (m : nat) (d : list Q) (Zm : list (list Q)) : list (list Q) :=
   map (fun zi => map (fun zj => (1 / Zq (Z.of_nat m)) * yang_entry d zi zj) Zm) Zm.
 Definition yang_from_gmat (ploidy : Z) (m : nat) (X : list (list Z)) (p_anc : oarg) : res (list (list Q)) :=
@@ -143,7 +148,7 @@ Definition kinship (G : list (list Q)) (i j : nat) : Q := (1 # 2) * entry G i j.
 
 Definition maxl (l : list Q) : Q := match l with [] => 0 | x :: t => fold_left Qmax' t x end.
 Definition minl (l : list Q) : Q := match l with [] => 0 | x :: t => fold_left Qmin' t x end.
-Definition meanl (l : list Q) : Q := sumQ l / Zq (Z.of_nat (length l)).
+Definition meanl (l : list Q) : Q := sumQr l / Zq (Z.of_nat (length l)).
 Definition diag (G : list (list Q)) : list Q := map (fun i => entry G i i) (seq 0 (length G)).
 Definition columns (G : list (list Q)) : list (list Q) := cols 0 (length G) G.
 
@@ -157,16 +162,16 @@ Definition red_axis (red : list Q -> Q) (f : fmt) (axis : nat) (G : list (list Q
 
 Definition max_inbreeding (f : fmt) (G : list (list Q)) : Q := half f (maxl (diag G)).
 (** min_inbreeding = 1 / sum(inv(G)) for a given inverse [H]; kinship format halves the result *)
-Definition min_inbreeding_of (f : fmt) (H : list (list Q)) : Q := half f (1 / sumQ (concat H)).
+Definition min_inbreeding_of (f : fmt) (H : list (list Q)) : Q := half f (1 / sumQr (concat H)).
 
 (** ** linear algebra *)
 Definition mmul (A B : list (list Q)) : list (list Q) :=
   let nc := match B with [] => O | r :: _ => length r end in
-  map (fun a => map (fun j => dotQ a (col 0 j B)) (seq 0 nc)) A.
+  map (fun a => map (fun j => dotQr a (col 0 j B)) (seq 0 nc)) A.
 Definition ident (n : nat) : list (list Q) :=
   map (fun i => map (fun j => if Nat.eqb i j then 1 else 0) (seq 0 n)) (seq 0 n).
 (** quadratic form x' G x *)
-Definition qform (x : list Q) (G : list (list Q)) : Q := dotQ x (map (dotQ x) G).
+Definition qform (x : list Q) (G : list (list Q)) : Q := dotQr x (map (dotQr x) G).
 
 (** Gauss-Jordan elimination without pivoting on [G | I] (entries normalised with Qred to keep them small).
     Nothing is proved about this function: its result is *checked* by [inv_checked]. *)
@@ -195,9 +200,12 @@ Definition inv_checked (G : list (list Q)) : option (list (list Q)) :=
   | None => None
   end.
 Definition scale_mat (c : Q) (G : list (list Q)) : list (list Q) := map (map (Qmult c)) G.
-(** inverse(format): inv(G) or inv(0.5 G) *)
+(** inverse(format): inv(G) or inv(0.5 G); the latter is 2 inv(G) (the inverse is unique: see C13_inverse_kinship) *)
 Definition inverse_of (f : fmt) (G : list (list Q)) : option (list (list Q)) :=
-  match f with Coancestry => inv_checked G | Kinship => inv_checked (scale_mat (1 # 2) G) end.
+  match f with
+  | Coancestry => inv_checked G
+  | Kinship => match inv_checked G with Some H => Some (scale_mat 2 H) | None => None end
+  end.
 Definition min_inbreeding (f : fmt) (G : list (list Q)) : option Q :=
   match inv_checked G with Some H => Some (min_inbreeding_of f H) | None => None end.
 
@@ -221,13 +229,16 @@ Fixpoint pd_cert_fuel (fuel : nat) (G : list (list Q)) : bool :=
 Definition pd_cert (G : list (list Q)) : bool := pd_cert_fuel (length G) G.
 Definition shift_diag (delta : Q) (G : list (list Q)) : list (list Q) :=
   mapi (fun i row => mapi (fun j v => if Nat.eqb i j then v - delta else v) row) G.
+(** thresholds are moved to the next multiple of 2^-20 in the safe direction (small denominators) *)
+Definition coarse_up (q : Q) : Q := Qred (Zq (Qceiling (q * 1048576)) / 1048576).
+Definition coarse_dn (q : Q) : Q := Qred (Zq (Qfloor (q * 1048576)) / 1048576).
 (** is_positive_semidefinite(eigvaltol): all(eigvals(G) >= max(eigvaltol, 0)).
     Decided only with a margin: [Some true] if lambda_min > tol + margin is certified,
     [Some false] if some diagonal entry (a Rayleigh quotient) is < tol - margin, otherwise undecided. *)
 Definition psd_decided (margin tol : Q) (G : list (list Q)) : option bool :=
   let t := if Qle_bool tol 0 then 0 else tol in
-  if pd_cert (shift_diag (t + margin) G) then Some true
-  else if existsb (fun d => negb (Qle_bool (t - margin) d)) (diag G) then Some false
+  if pd_cert (shift_diag (coarse_up (t + margin)) G) then Some true
+  else if existsb (fun d => negb (Qle_bool (coarse_dn (t - margin)) d)) (diag G) then Some false
   else None.
 
 (** ** comparison helpers used by the correspondence shards *)
@@ -248,20 +259,23 @@ Definition psd_agree (impl : option bool) (model : option bool) : bool :=
 (** numpy.linalg results are compared only where the exact inverse exists and is well-conditioned *)
 Definition maxabs (G : list (list Q)) : Q := fold_left Qmax' (map Qabs' (concat G)) 0.
 Definition wellcond (G H : list (list Q)) : bool := Qle_bool (Zq (Z.of_nat (length G)) * maxabs G * maxabs H) 1000.
-Definition inv_agree (impl : option (list (list Q))) (f : fmt) (G : list (list Q)) : bool :=
-  let Gf := match f with Coancestry => G | Kinship => scale_mat (1 # 2) G end in
-  match inv_checked Gf with
-  | Some H => if wellcond Gf H
-              then match impl with Some Hi => list_eqb (list_eqb Qclose9) Hi H | None => false end
+(** [Hc] is [inv_checked G], computed once per case by the shard *)
+Definition inv_agree (impl : option (list (list Q))) (f : fmt) (G : list (list Q)) (Hc : option (list (list Q))) : bool :=
+  match Hc with
+  | Some H => if wellcond G H
+              then match impl with
+                   | Some Hi => list_eqb (list_eqb Qclose9) Hi (match f with Coancestry => H | Kinship => scale_mat 2 H end)
+                   | None => false
+                   end
               else true
   | None => true
   end.
 (** ... and min_inbreeding additionally only where the sum of the inverse does not cancel *)
 Definition sum_ok (H : list (list Q)) : bool :=
-  let s := sumQ (concat H) in
+  let s := sumQr (concat H) in
   negb (Qeq_bool s 0) && Qle_bool (Zq (Z.of_nat (length H * length H)) * maxabs H) (1000 * Qabs' s).
-Definition mininb_agree (impl : option Q) (f : fmt) (G : list (list Q)) : bool :=
-  match inv_checked G with
+Definition mininb_agree (impl : option Q) (f : fmt) (G : list (list Q)) (Hc : option (list (list Q))) : bool :=
+  match Hc with
   | Some H => if wellcond G H && sum_ok H
               then match impl with Some v => Qclose9 v (min_inbreeding_of f H) | None => false end
               else true
